@@ -13,6 +13,8 @@ CONSTANTS IPs,
           Steps,                 \* allowed time advances (ticks)
           CleanEvery, IdleAge,   \* 75, 150 ticks  (300 s, 600 s)
           MaxTime, MaxReq,
+          CleanupFirst,          \* TRUE: a clean-up wake-up precedes every request of the same instant (virtual-time replay);
+                                 \* FALSE: a request may be handled between the timer firing and the clean-up task resuming
           EvictRegardless        \* deviation: evict idle buckets whatever their level (tree before the fix)
 VARIABLES par, now, nextClean, bucket, ref, admits, nreq, lastDec
 vars == <<par, now, nextClean, bucket, ref, admits, nreq, lastDec>>
@@ -32,7 +34,7 @@ Init == \E p \in Params : InitWith(p)
 \* the clean-up task wakes before anything else that happens at the same instant
 Advance(d) == /\ now < nextClean /\ now + d <= nextClean /\ now + d <= MaxTime /\ now' = now + d
               /\ UNCHANGED <<par, nextClean, bucket, ref, admits, nreq, lastDec>>
-Request(i) == /\ now < nextClean /\ nreq < MaxReq /\ nreq' = nreq + 1
+Request(i) == /\ (CleanupFirst => now < nextClean) /\ nreq < MaxReq /\ nreq' = nreq + 1
               /\ LET c == Consume(bucket[i], now)  cr == Consume(ref[i], now) IN
                    /\ bucket' = [bucket EXCEPT ![i] = c.b] /\ ref' = [ref EXCEPT ![i] = cr.b]
                    /\ admits' = [admits EXCEPT ![i] = IF c.ok THEN Append(@, now) ELSE @]
